@@ -386,9 +386,23 @@ fn exec_hash(sc: &Scenario) -> Outcome {
     let yaml: serde_yaml::Value = serde_yaml::from_str(&sc.rule_text).unwrap_or(serde_yaml::Value::Null);
     let shape = gen::rule_shape(&yaml);
     stats.seen("rule_shapes", shape);
+    let t_start = std::time::Instant::now();
+    let mut cut_short = false;
     for sw in &sc.switch_sets {
+        if cut_short {
+            break;
+        }
         let mut first: Option<(u64, String, Option<Vec<bool>>)> = None;
         for h in &sc.hash_seeds {
+            // rules whose automata take long to build: stop exploring after a few seconds (a
+            // scenario must stay far below the hang watchdog)
+            if t_start.elapsed().as_secs() >= 4 {
+                if !cut_short {
+                    stats.inc("heavy_scenarios_cut_short");
+                }
+                cut_short = true;
+                break;
+            }
             let maps0 = tau_engine::verif::maps_created();
             let a = optimise(&rule, *sw, *h);
             let maps = tau_engine::verif::maps_created() - maps0;
